@@ -38,6 +38,9 @@ func verifyUnits(p *Prog, fi *FuncInfo) []*UnitResult {
 
 func verifyUnit(p *Prog, fi *FuncInfo, split *int64) (res *UnitResult) {
 	knownLits = map[*Term]*big.Int{}
+	// the folding knowledge of this unit must not leak into terms built later
+	// (other units, query construction)
+	defer func() { knownLits = map[*Term]*big.Int{} }()
 	x := newExec(p, fi)
 	if split != nil {
 		x.nameSuffix = fmt.Sprintf("[%d]", *split)
